@@ -5,7 +5,7 @@
 From Coq Require Import List Bool ZArith NArith QArith Lia.
 From DV Require Import Common.Res Common.Str Common.F64.
 Import ListNotations.
-Open Scope N_scope.
+Local Open Scope N_scope.
 
 (** Py_UNICODE_ISSPACE *)
 Definition py_isspace (c : N) : bool :=
